@@ -45,6 +45,10 @@ type ObsStore struct {
 	*chain.DBStore
 	n     *Node
 	First *ExpMismatch
+	// CoreRevert is set when, right after the revert of a block that both revised and resolved one v1
+	// contract, a proof the store serves no longer verifies (core's RevertBlock derives the restored leaf
+	// from the diff, which holds the revised contract; see DESIGN A.3)
+	CoreRevert string
 	Hook  func(applied bool, tip types.ChainIndex) // optional extra observer
 }
 
@@ -145,8 +149,45 @@ func (s *ObsStore) RevertBlock(cs consensus.State, cru consensus.RevertUpdate) {
 			re = append(re, d.FileContractElement.ID)
 		}
 	}
+	for _, d := range cru.FileContractElementDiffs() {
+		if d.Resolved && d.Revision != nil && !d.Created && s.CoreRevert == "" {
+			if err := s.proofs(cs); err != nil {
+				s.CoreRevert = fmt.Sprintf("after reverting to %v: %v", cs.Index, err)
+			}
+		}
+	}
 	s.check(true, cs.Index, re)
 	if s.Hook != nil {
 		s.Hook(false, cs.Index)
 	}
+}
+
+// proofs checks every siacoin element proof the store serves against the accumulator of cs (the tip).
+func (s *ObsStore) proofs(cs consensus.State) (err error) {
+	defer func() {
+		if r := recover(); r != nil {
+			err = fmt.Errorf("SupplementTipTransaction panicked: %v", r)
+		}
+	}()
+	if cs.Index.Height > s.n.U.Net.HardforkV2.RequireHeight {
+		return nil
+	}
+	var ids []string
+	for k := range s.n.DB.Current()["SiacoinElements"] {
+		ids = append(ids, k)
+	}
+	sort.Strings(ids)
+	for _, k := range ids {
+		ts := s.DBStore.SupplementTipTransaction(types.Transaction{SiacoinInputs: []types.SiacoinInput{{ParentID: types.SiacoinOutputID([]byte(k))}}})
+		var v2 types.V2Transaction
+		for _, e := range ts.SiacoinInputs {
+			v2.SiacoinInputs = append(v2.SiacoinInputs, types.V2SiacoinInput{Parent: e.Copy()})
+		}
+		if len(v2.SiacoinInputs) > 0 {
+			if err := cs.Elements.ValidateTransactionElements(v2); err != nil {
+				return fmt.Errorf("the proof served for siacoin element %x does not verify: %v", k, err)
+			}
+		}
+	}
+	return nil
 }
